@@ -356,7 +356,12 @@ func lifeExec(tr *vh.Transcript, ops []string) {
 			after(op)
 		case "poolclose":
 			if pc := s.lastConn(f[1]); pc != nil {
-				pc.C.Close()
+				if len(f) > 2 && f[2] == "garbage" {
+					// the pool fails without hanging up: it sends something that is not stratum and keeps the socket open
+					go pc.Send("<html><body>502 Bad Gateway</body></html>")
+				} else {
+					pc.C.Close()
+				}
 			}
 			after(op)
 		case "poolreach":
@@ -490,7 +495,8 @@ func TestVerifLife(t *testing.T) {
 	n := vh.EnvInt("VERIF_N", 200)
 	from := vh.EnvInt("VERIF_FROM", 0) // continue after a frozen case
 	for c := 0; c < n; c++ {
-		ops := lifeGen(root.Fork())
+		rrr := root.Fork()
+		ops := lifeGarble(rrr, lifeGen(rrr))
 		if c < from {
 			continue
 		}
@@ -499,6 +505,16 @@ func TestVerifLife(t *testing.T) {
 		lifeBubble(t, tr, ops)
 		stop()
 	}
+}
+
+// lifeGarble: some of the pool failures are a pool that sends a non-stratum line and keeps its socket open
+func lifeGarble(r *vh.Rng, ops []string) []string {
+	for i, o := range ops {
+		if strings.HasPrefix(o, "poolclose ") && len(strings.Fields(o)) == 2 && r.Bool(30) {
+			ops[i] = o + " garbage"
+		}
+	}
+	return ops
 }
 
 func lifeGen(r *vh.Rng) []string {
@@ -651,6 +667,7 @@ func TestVerifLifeRegular(t *testing.T) {
 		if c%3 == 2 {
 			ops = lifeGenTask(rr)
 		}
+		ops = lifeGarble(rr, ops)
 		if c < from {
 			continue
 		}
